@@ -3,6 +3,7 @@ Process-level preparation: import txtorcon from /repo's working tree, silence
 logging, count AlreadyCalledError everywhere, per-run reset of txtorcon's
 process-global state.
 """
+import gc
 import os
 import sys
 import io
@@ -42,6 +43,13 @@ def prepare():
             return
         if ev.get('isError'):
             f = ev.get('failure')
+            if 'Unhandled error in Deferred' in str(ev.get('log_format') or ev.get('why') or ''):
+                # logged from Deferred.__del__, whenever the object happens to be freed: not an error a
+                # listener or the protocol reported
+                sim.unhandled_in_deferred = getattr(sim, 'unhandled_in_deferred', 0) + 1
+                if f is not None and f.check(defer.AlreadyCalledError):
+                    sim.already_called_logged += 1
+                return
             if f is not None:
                 sim.logged_errors.append(f.type.__name__)
                 if f.check(defer.AlreadyCalledError):
@@ -58,6 +66,11 @@ def prepare():
         orig_init(self, *a, **kw)
     defer.AlreadyCalledError.__init__ = counting_init
     defer.setDebugging(False)
+    # the collector never runs by itself (its timing depends on allocation counts of earlier runs in this
+    # process); everything imported so far is frozen so that the explicit collection after each run is cheap
+    gc.disable()
+    gc.collect()
+    gc.freeze()
 
 
 def begin_run(sim):
@@ -74,7 +87,10 @@ def begin_run(sim):
 
 
 def end_run():
+    """no run is current any more; then collect cyclic garbage NOW, so that finalisers of this run's objects
+    (Deferred.__del__ logging an unhandled failure, weak-reference callbacks) can never fire inside a later run"""
     CURRENT['sim'] = None
+    gc.collect()
 
 
 class Quiet(object):
